@@ -196,6 +196,16 @@ func setRoundTrip(cs *fw.Case, ev map[string]any, sigHead string, ty scalarType,
 	if pn := fw.Call(func() { other, err = mkOther(ty.t) }); pn == nil && err == nil && other != nil {
 		check("SetParameters(GetParameters()) into an object of the same structure with other parameters", other)
 	}
+	wrapP := func(mk func(t ad.ScalarType) (st.ScalarPdf, error)) func() (pobj, error) {
+		return func() (pobj, error) {
+			o, err := mk(ty.t)
+			if err != nil || o == nil {
+				return pobj{}, fmt.Errorf("constructor: %v", err)
+			}
+			return sobj(o, ty.t, xs), nil
+		}
+	}
+	aliasCheck(cs, ev, sigHead, wrapP(mk), wrapP(mkOther))
 }
 
 // countingVector wraps a parameter vector and counts the nested Slice calls: a
@@ -596,4 +606,107 @@ func genericSetRoundTrip(cs *fw.Case, ev map[string]any, sigHead string, d pobj,
 	}
 	check("SetParameters(GetParameters()) on an identical object", mkSame)
 	check("SetParameters(GetParameters()) into an object of the same structure with other parameters", mkOther)
+	aliasCheck(cs, ev, sigHead, mkSame, mkOther)
+}
+
+func sobj(d st.ScalarPdf, t ad.ScalarType, xs []float64) pobj {
+	return pobj{d.GetParameters, d.SetParameters, func(i int) string { return evalLP(d, t, xs[i]) }, len(xs)}
+}
+
+// snapshot: parameter vector and log-density values of an object.
+func (o pobj) snapshot() (p []float64, lp []string, pn *fw.Panic) {
+	pn = fw.Call(func() {
+		p = floats(o.get())
+		lp = make([]string, o.n)
+		for i := range lp {
+			lp[i] = o.lp(i)
+		}
+	})
+	return
+}
+
+func sameStrings(a, b []string) (int, bool) {
+	for i := range a {
+		if i >= len(b) || a[i] != b[i] {
+			return i, false
+		}
+	}
+	return 0, true
+}
+
+// aliasCheck: a distribution must not keep references to what the caller
+// handed in.  (1) construct with recorded arguments, overwrite every scalar /
+// vector / matrix argument with the values of another valid construction (mkQ)
+// and require parameters and log-densities to stay what they were;
+// (2) SetParameters(v), overwrite v, same requirement.
+func aliasCheck(cs *fw.Case, ev map[string]any, sigHead string, mkP, mkQ func() (pobj, error)) {
+	var o pobj
+	var err error
+	var pn *fw.Panic
+	args := recording(func() { pn = fw.Call(func() { o, err = mkP() }) })
+	if pn != nil || err != nil {
+		return // reported elsewhere
+	}
+	vals := recording(func() { fw.Call(func() { mkQ() }) })
+	p0, l0, pn := o.snapshot()
+	if pn != nil {
+		return
+	}
+	args.overwrite(vals)
+	p1, l1, pn := o.snapshot()
+	cs.Cover("alias:ctor-args")
+	switch {
+	case pn != nil:
+		cs.Violation(sigHead+"|ctor-args|alias", "after the constructor arguments were overwritten the distribution panics: "+pn.Msg, ev)
+	case !sameBits(p0, p1):
+		cs.Violation(sigHead+"|ctor-args|alias", fmt.Sprintf("the distribution keeps a reference to a constructor argument: GetParameters() changed from %v to %v when the caller overwrote the scalars / vectors / matrices it had passed", p0, p1), ev)
+	default:
+		if i, ok := sameStrings(l0, l1); !ok {
+			cs.Violation(sigHead+"|ctor-args|alias", fmt.Sprintf("the distribution keeps a reference to a constructor argument: LogPdf at argument %d changed from %s to %s when the caller overwrote the scalars / vectors / matrices it had passed", i, l0[i], l1[i]), ev)
+		}
+	}
+	// SetParameters
+	var src, dst, oth pobj
+	if pn := fw.Call(func() {
+		if src, err = mkP(); err != nil {
+			return
+		}
+		if dst, err = mkQ(); err != nil {
+			return
+		}
+		oth, err = mkQ()
+	}); pn != nil || err != nil {
+		return
+	}
+	var v ad.Vector
+	var serr error
+	if pn := fw.Call(func() { v = src.get().CloneVector(); serr = dst.set(v) }); pn != nil || serr != nil {
+		return // reported by the round trip monitor
+	}
+	p0, l0, pn = dst.snapshot()
+	if pn != nil {
+		return
+	}
+	fw.Call(func() {
+		ov := oth.get()
+		for i := 0; i < v.Dim(); i++ {
+			if i < ov.Dim() && ov.At(i).GetFloat64() != v.At(i).GetFloat64() {
+				v.At(i).SetFloat64(ov.At(i).GetFloat64())
+			} else {
+				v.At(i).SetFloat64(0.75*v.At(i).GetFloat64() + 0.125)
+			}
+		}
+	})
+	p1, l1, pn = dst.snapshot()
+	cs.Cover("alias:set-args")
+	switch {
+	case pn != nil:
+		cs.Violation(sigHead+"|set-args|alias", "after the vector handed to SetParameters was overwritten the distribution panics: "+pn.Msg, ev)
+	case !sameBits(p0, p1):
+		cs.Violation(sigHead+"|set-args|alias", fmt.Sprintf("SetParameters keeps a reference to its argument: GetParameters() changed from %v to %v when the caller overwrote the vector", p0, p1), ev)
+	default:
+		if i, ok := sameStrings(l0, l1); !ok {
+			cs.Violation(sigHead+"|set-args|alias", fmt.Sprintf("SetParameters keeps a reference to its argument: LogPdf at argument %d changed from %s to %s when the caller overwrote the vector", i, l0[i], l1[i]), ev)
+		}
+	}
 }
